@@ -8,6 +8,7 @@ import (
 	"sort"
 	"strings"
 	"sync"
+	"time"
 
 	dkgPedersen "github.com/corestario/kyber/share/dkg/pedersen"
 
@@ -254,6 +255,14 @@ func (a *airRun) drive(r *kit.Run) error {
 }
 
 func runAir(r *kit.Run, n, t, p int, plan airPlan) airObs {
+	return runAirAfter(r, n, t, p, plan, false)
+}
+
+// runAirAfter: with prior set, the machines have been through an earlier, complete ceremony of
+// the same participants in the same process lifetime (another round id) before the ceremony that
+// is interrupted: whatever a machine keeps in memory from round to round is then not what a
+// reopened machine has.
+func runAirAfter(r *kit.Run, n, t, p int, plan airPlan, prior bool) airObs {
 	w, err := world.NewWorld(n)
 	if err != nil {
 		r.Infra("world: %v", err)
@@ -265,6 +274,54 @@ func runAir(r *kit.Run, n, t, p int, plan airPlan) airObs {
 		}
 	}()
 	a := &airRun{n: n, t: t, p: p, w: w, plan: plan}
+	priorRound := ""
+	priorKeyrings := map[int][2]string{}
+	keyringOf := func(i int, round string) [2]string {
+		air := w.Airs[i]
+		if air.M == nil {
+			return [2]string{"none", "machine not running"}
+		}
+		krs, err := air.M.GetBLSKeyrings()
+		if err != nil || krs[round] == nil {
+			return [2]string{"none", fmt.Sprint(err)}
+		}
+		cs, _ := oracle.PolyCommitBytes(krs[round].PubPoly)
+		sh, _ := krs[round].Share.V.MarshalBinary()
+		return [2]string{fmt.Sprintf("%x", cs), fmt.Sprintf("%d:%x", krs[round].Share.I, sh)}
+	}
+	if prior {
+		pr, err := w.StartDKGOver(t, n-1, seqInts(n), func(q *requests.SignatureProposalParticipantsListRequest) { q.CreatedAt = q.CreatedAt.Add(-time.Hour) })
+		if err != nil {
+			r.Infra("StartDKG (earlier ceremony): %v", err)
+		}
+		priorRound = pr
+		for iter := 0; ; iter++ {
+			if err := w.DrainAll(); err != nil {
+				r.Infra("earlier ceremony: %v", err)
+			}
+			cnt := 0
+			for i := 0; i < n; i++ {
+				for _, op := range w.Nodes[i].PendingOps() {
+					if err := w.Operate(i, op.ID); err != nil {
+						r.Infra("earlier ceremony, participant %d, %s: %v", i, op.Type, err)
+					}
+					cnt++
+				}
+			}
+			if cnt == 0 {
+				break
+			}
+			if iter > 200 {
+				r.Infra("earlier ceremony: no quiescence")
+			}
+		}
+		for i, nd := range w.Nodes {
+			if st := nd.RoundState(pr); st != string(sif.StateSigningIdle) {
+				r.Infra("earlier ceremony: node %d ends in %s", i, st)
+			}
+			priorKeyrings[i] = keyringOf(i, pr)
+		}
+	}
 	path := w.Airs[p].DBPath()
 	world.RegisterDBHook(path, func(op, phase string, key []byte) {
 		if op == "open" {
@@ -326,6 +383,12 @@ func runAir(r *kit.Run, n, t, p int, plan airPlan) airObs {
 	if w.Airs[p].M == nil {
 		return a.obs
 	}
+	// the key material of the earlier round is still what it was
+	for i := range w.Airs {
+		if prior && keyringOf(i, priorRound) != priorKeyrings[i] {
+			a.obs.Keyrings[1000+i] = [2]string{"earlier round", "the key material machine " + fmt.Sprint(i) + " holds for the EARLIER round changed"}
+		}
+	}
 	if fmt.Sprintf("%x", w.Airs[p].PubKeyBytes()) != a.obs.PubKey {
 		a.obs.PubKey = "changed-after-restart"
 	}
@@ -377,8 +440,18 @@ func c12(tier string, args []string) int {
 			plans = append(plans, airPlan{KillStep: k, KillWrite: 1, KillPhase: "post", CleanAfter: []int{k + 1}})
 		}
 		type job struct {
-			p    int
-			plan airPlan
+			p     int
+			plan  airPlan
+			prior bool
+		}
+		// machines that went through an earlier ceremony in the same process lifetime
+		var refPrior airObs
+		withPrior := nt.n <= 3 || tier == "thorough"
+		if withPrior {
+			refPrior = runAirAfter(r, nt.n, nt.t, 0, airPlan{}, true)
+			if !refPrior.Ready || refPrior.Partial == "" {
+				r.Infra("uninterrupted second ceremony n=%d t=%d did not complete: %s", nt.n, nt.t, refPrior.Detail)
+			}
 		}
 		ch := make(chan job)
 		var wg sync.WaitGroup
@@ -387,8 +460,13 @@ func c12(tier string, args []string) int {
 			go func() {
 				defer wg.Done()
 				for jb := range ch {
-					got := runAir(r, nt.n, nt.t, jb.p, jb.plan)
-					cmpAirP(r, nt, jb.p, jb.plan, ref, got)
+					if jb.prior {
+						got := runAirAfter(r, nt.n, nt.t, jb.p, jb.plan, true)
+						cmpAirPK(r, nt, jb.p, jb.plan, refPrior, got, "second-ceremony-of-the-machines:")
+					} else {
+						got := runAir(r, nt.n, nt.t, jb.p, jb.plan)
+						cmpAirP(r, nt, jb.p, jb.plan, ref, got)
+					}
 					mu.Lock()
 					evals++
 					distinct++
@@ -404,7 +482,20 @@ func c12(tier string, args []string) int {
 				if r.TimeUp() {
 					break
 				}
-				ch <- job{p, pl}
+				ch <- job{p, pl, false}
+			}
+		}
+		if withPrior {
+			for p := 0; p < nt.n; p++ {
+				for _, pl := range plans {
+					if r.TimeUp() {
+						break
+					}
+					if len(pl.CleanAfter) > 1 {
+						continue // single stops and kills; pairs are covered in a machine's first ceremony
+					}
+					ch <- job{p, pl, true}
+				}
 			}
 		}
 		close(ch)
@@ -412,7 +503,7 @@ func c12(tier string, args []string) int {
 	}
 	r.Set("evaluations", evals)
 	r.Set("distinct_nontrivial", distinct)
-	r.Set("rule", "every (n,t) x participant x stop plan (clean restart after each of the 5 operations, kill before/after every database write inside each key-generation operation, pairs of restarts, kill + later restart) runs a complete ceremony + signing batch with real nodes and machines; the stopped machine is reopened from its database and replayed once; compared with the uninterrupted run: long-term key, commitments, responses, announced key/polynomial, every machine's final polynomial and share, the partial signature of a fixed batch")
+	r.Set("rule", "every (n,t) x participant x stop plan (clean restart after each of the 5 operations, kill before/after every database write inside each key-generation operation, pairs of restarts, kill + later restart) runs a complete ceremony + signing batch with real nodes and machines; the stopped machine is reopened from its database and replayed once; the same single stops and kills in the SECOND ceremony of machines that completed an earlier one in the same process lifetime (n<=3; all in the thorough tier), where the earlier round's key material must also stay what it was; compared with the uninterrupted run: long-term key, commitments, responses, announced key/polynomial, every machine's final polynomial and share, the partial signature of a fixed batch")
 	return finish(r)
 }
 
@@ -440,6 +531,11 @@ func cmpAir(r *kit.Run, nt ntPair, p int, label string, ref, got airObs) {
 	if got.Republished != "" {
 		r.Violation("C12/differs/republished-result-file/"+key, fmt.Sprintf("n=%d t=%d participant %d, %s: a result file written again by the replay publishes something else than before the stop: %s", nt.n, nt.t, p, label, got.Republished), trace)
 	}
+	for i, kr := range got.Keyrings {
+		if i >= 1000 {
+			r.Violation("C12/differs/earlier-round-key-material/"+key, fmt.Sprintf("n=%d t=%d participant %d, %s: %s", nt.n, nt.t, p, label, kr[1]), trace)
+		}
+	}
 	for i, kr := range ref.Keyrings {
 		if got.Keyrings[i] != kr {
 			r.Violation("C12/differs/final-key-material/"+key, fmt.Sprintf("n=%d t=%d participant %d, %s: machine %d ends with a different polynomial or share than in the uninterrupted ceremony", nt.n, nt.t, p, label, i), trace)
@@ -448,6 +544,10 @@ func cmpAir(r *kit.Run, nt ntPair, p int, label string, ref, got airObs) {
 }
 
 func cmpAirP(r *kit.Run, nt ntPair, p int, plan airPlan, ref, got airObs) {
+	cmpAirPK(r, nt, p, plan, ref, got, "")
+}
+
+func cmpAirPK(r *kit.Run, nt ntPair, p int, plan airPlan, ref, got airObs, prefix string) {
 	label := plan.String()
 	k := "restart"
 	if plan.KillStep > 0 {
@@ -455,5 +555,13 @@ func cmpAirP(r *kit.Run, nt ntPair, p int, plan airPlan, ref, got airObs) {
 	} else if len(plan.CleanAfter) > 0 {
 		k = fmt.Sprintf("restart-after-operation-%d", plan.CleanAfter[0])
 	}
-	cmpAir(r, nt, p, k+" ("+label+")", ref, got)
+	cmpAir(r, nt, p, prefix+k+" ("+label+")", ref, got)
+}
+
+func seqInts(n int) []int {
+	out := make([]int, n)
+	for i := range out {
+		out[i] = i
+	}
+	return out
 }
